@@ -22,7 +22,7 @@ _THEOREM_NAMES = ["C18_relative_iff", "C18_relative_join", "C18_join_relative", 
                   # second review
                   "C18_parse_wf", "C18_parse_render_parse", "C18_relative_join_wf", "C18_render_injective",
                   "C18_string_level", "C18_relocate_to_none", "C18_relocate_from_none", "C18_recordings_of_mapPath",
-                  "C18_loaded_recordings", "C18_relocate_collection", "C18_passthrough_collection"]
+                  "C18_loaded_recordings", "C18_relocate_collection", "C18_passthrough_collection", "C18_adapter_table"]
 THEOREMS = [_T + n for n in _THEOREM_NAMES]
 LEVEL_TEXT = ("Lean theorems over a model of POSIX pure paths (parse, render, relative_to, join as pathlib computes "
               "them; every string parses to a well-formed path and parse . render is the identity on those) and of the "
@@ -39,8 +39,10 @@ LEVEL_NOTE = ("Trusted: Lean kernel; pathlib itself (its parse is compared with 
               "leaves nothing behind (no file at the target, no other file next to it, an existing file untouched) is "
               "observed on the real code for every failing case. That `save` creates a missing parent directory of the "
               "target file before converting is observed and not compared.")
-TECHNIQUE = ("Lean 4 proof (path algebra and recording-adapter theorems over the AOEF model); differential "
-             "correspondence with pathlib and with the real save/load of all eight collection types")
+TECHNIQUE = ("Lean 4 proof (path algebra and recording-adapter theorems over the AOEF model); regenerated "
+             "adapter-table obligation (introspection of ADAPTERS: one recording adapter per collection adapter, and it "
+             "got the directory); differential correspondence with pathlib and with the real save/load of all eight "
+             "collection types")
 RULE = ("distinct (operation, input) cases on which the real code produced paths (or the expected failure): path "
         "strings against pathlib, stored paths and relocated paths of every recording of a collection")
 TRUSTED = ["pathlib.PurePosixPath (compared with the model on every generated path)",
@@ -459,6 +461,105 @@ def _holds_relocate_chain(ctx, inp, out):
             return None
         paths = nxt
     return None
+
+
+# ------------------------------------------------------------------ Tie 1: the adapter table, by introspection
+def _reachable_instances(root, cls, depth=6):
+    """every instance of `cls` reachable from `root` through instance attributes, whatever their names"""
+    seen, found, todo = set(), {}, [(root, 0)]
+    while todo:
+        x, d = todo.pop()
+        if id(x) in seen:
+            continue
+        seen.add(id(x))
+        if isinstance(x, cls):
+            found[id(x)] = x
+        if d >= depth:
+            continue
+        if isinstance(x, dict):
+            kids = list(x.values())
+        elif isinstance(x, (list, tuple, set)):
+            kids = list(x)
+        elif hasattr(x, "__dict__") and not isinstance(x, type):
+            kids = list(vars(x).values())
+        else:
+            kids = []
+        for k in kids:
+            if k is None or isinstance(k, (str, bytes, int, float, bool, Path)):
+                continue
+            todo.append((k, d + 1))
+    return list(found.values())
+
+
+def _adapter_rows():
+    """(collection type, number of distinct recording adapters of the collection adapter built with a directory,
+    each stores relative / fails outside / joins on load, the ones built without a directory pass paths through) for
+    every row of soundevent.io.aoef.ADAPTERS -- observed by calling the recording adapters' two conversion methods"""
+    import importlib
+    import uuid as _uuid
+    from soundevent import data
+    real = importlib.import_module("soundevent.io.aoef")
+    recmod = importlib.import_module("soundevent.io.aoef.recording")
+    table, RA, RO = (getattr(real, "ADAPTERS", None), getattr(recmod, "RecordingAdapter", None),
+                     getattr(recmod, "RecordingObject", None))
+    if table is None or RA is None or RO is None:
+        raise LookupError("soundevent.io.aoef.ADAPTERS / recording.RecordingAdapter / recording.RecordingObject not found")
+    sent = Path("/c18 probe/audio dir")
+
+    def rec(p):
+        return data.Recording(path=p, duration=1.0, channels=1, samplerate=8000)
+
+    def obj(p):
+        return RO(uuid=_uuid.uuid4(), path=p, duration=1.0, channels=1, samplerate=8000)
+
+    def ok(f):
+        def g(a):
+            try:
+                return bool(f(a))
+            except Exception:  # noqa: BLE001
+                return False
+        return g
+
+    def stores(a):
+        r = rec(sent / "sub dir" / "x.wav")
+        return str(a.assemble_aoef(r, r.uuid).path) == "sub dir/x.wav"
+
+    def fails(a):
+        r = rec(Path("/c18 probe/audio dir2/x.wav"))
+        try:
+            a.assemble_aoef(r, r.uuid)
+        except ValueError:
+            return True
+        return False
+
+    def joins(a):
+        return Path(a.assemble_soundevent(obj("sub dir/x.wav")).path) == sent / "sub dir" / "x.wav"
+
+    def passes(a):
+        r = rec(sent / "y.wav")
+        return (Path(a.assemble_aoef(r, r.uuid).path) == sent / "y.wav"
+                and Path(a.assemble_soundevent(obj("rel/y.wav")).path) == Path("rel/y.wav"))
+
+    rows = []
+    for name, _cls, adapter_cls in table:
+        with_dir = _reachable_instances(adapter_cls(audio_dir=sent), RA)
+        without = _reachable_instances(adapter_cls(), RA)
+        rows.append((str(name), len(with_dir), all(map(ok(stores), with_dir)), all(map(ok(fails), with_dir)),
+                     all(map(ok(joins), with_dir)), len(without) == len(with_dir) and all(map(ok(passes), without))))
+    return rows
+
+
+def _tables(ctx):
+    rows = _adapter_rows()
+    b = lambda x: "true" if x else "false"
+    lean_rows = ", ".join(f'⟨{json.dumps(n, ensure_ascii=False)}, {k}, {b(s)}, {b(f)}, {b(j)}, {b(p)}⟩' for n, k, s, f, j, p in rows)
+    src = (f"def extractedAdapters : List SE.Proofs.C18.AdapterRow := [{lean_rows}]\n"
+           "example : SE.Proofs.C18.ThreadsDir extractedAdapters := by decide\n"
+           "example (c : SE.Aoef.Collection) : ∃ r ∈ extractedAdapters, r.type = c.typeName ∧ r.recAdapters = 1 ∧\n"
+           "    r.storesRelative = true ∧ r.failsOutside = true ∧ r.joinsOnLoad = true ∧ r.passThrough = true :=\n"
+           "  SE.Proofs.C18.C18_adapter_table extractedAdapters (by decide) c\n")
+    ctx.obligation("adapter_table_threads_audio_dir", src, {"rows": rows})
+    ctx.discharge(["Proofs.C18"])
 
 
 def _model_args(*keys):
@@ -959,6 +1060,7 @@ def _grid(ctx):
 
 
 def run(ctx):
+    ctx.stage("tables", _tables, ctx)
     ctx.stage("corpus", ctx.run_corpus, OPS)
     ctx.stage("paths", _paths, ctx)
     ctx.stage("grid", _grid, ctx)
